@@ -529,8 +529,22 @@ impl<'a> TypeHumanizer<'a> {
     fn write_array_type<W: Write>(&mut self, inner: &LuaType, w: &mut W) -> fmt::Result {
         let saved = self.level;
         self.level = self.child_level();
-        self.write_type(inner, w)?;
+        let result = if matches!(inner, LuaType::Union(_)) {
+            // `T?[]` is read as `T?` by the annotation parser: an element that
+            // renders with a trailing `?` has to be parenthesized.
+            let mut element = String::new();
+            self.write_type(inner, &mut element).and_then(|_| {
+                if element.ends_with('?') {
+                    write!(w, "({})", element)
+                } else {
+                    w.write_str(&element)
+                }
+            })
+        } else {
+            self.write_type(inner, w)
+        };
         self.level = saved;
+        result?;
         w.write_str("[]")
     }
 
@@ -1282,5 +1296,24 @@ where
         }
     } else {
         format!("({}{}){}", type_str, dots, if has_nil { "?" } else { "" })
+    }
+}
+
+#[cfg(test)]
+mod tests {
+    use crate::VirtualWorkspace;
+
+    #[test]
+    fn test_array_of_optional_is_parenthesized() {
+        let mut ws = VirtualWorkspace::new();
+        let ty = ws.ty("(string?)[]");
+        assert_eq!(ws.humanize_type_detailed(ty.clone()), "(string?)[]");
+        let rendered = ws.humanize_type_detailed(ty.clone());
+        assert_eq!(ws.ty(&rendered), ty);
+
+        let ty = ws.ty("(string|integer)[]");
+        assert_eq!(ws.humanize_type_detailed(ty), "(string|integer)[]");
+        let ty = ws.ty("(string|integer|nil)[]");
+        assert_eq!(ws.humanize_type_detailed(ty), "((string|integer)?)[]");
     }
 }
